@@ -354,7 +354,7 @@ package stream
 //@ func flattenSlicesStream.Next
 //@   props C07 C08 C09
 //@   requires stInv(s.inner)
-//@   modifies s.buffer, elems(s.buffer), s.inner.pos, s.inner.pulls, s.inner.lasterr, all(elems(s.buffer))
+//@   modifies s.buffer, s.inner.pos, s.inner.pulls, s.inner.lasterr
 //@   loop 0: invariant stInv(s.inner) && old(s.inner.pos) <= s.inner.pos
 //@   loop 0: invariant s.inner.pos == old(s.inner.pos) ==> s.buffer == old(s.buffer) && row(s.buffer) == old(row(s.buffer))
 //@   loop 0: invariant s.inner.pos > old(s.inner.pos) ==> old(len(s.buffer)) == 0 && s.buffer == s.inner.seq[s.inner.pos-1]
@@ -476,3 +476,12 @@ package stream
 //@   ensures result1 == End ==> s.inner.pos >= s.inner.n && s.curr == nil
 //@   ensures result1 != nil ==> result0 == nil
 //@   ensures result1 != nil && result1 != End ==> result1 == s.inner.lasterr && (s.curr == nil || (s.curr == old(s.curr) && s.curr.parent == old(s.curr.parent)))
+
+// ---- the remaining small pieces ----
+
+//@ func Compact
+//@   props C07 C09
+//@   ensures fresh(result) && result.(*compactStream[T]).inner == s && result.(*compactStream[T]).first
+//@   ensures forall a T, b T {result.(*compactStream[T]).eq(a, b)} :: result.(*compactStream[T]).eq(a, b) == (a == b)
+
+
